@@ -96,9 +96,9 @@ func (c *Ctx) SubSeed(stream string, i int) int64 {
 	return int64(h.Sum64() >> 1)
 }
 
-func (c *Ctx) SetRule(s string)   { c.mu.Lock(); c.rule = s; c.mu.Unlock() }
+func (c *Ctx) SetRule(s string)     { c.mu.Lock(); c.rule = s; c.mu.Unlock() }
 func (c *Ctx) SetExhaustive(b bool) { c.mu.Lock(); c.exhaustive = b; c.mu.Unlock() }
-func (c *Ctx) Assume(s string)    { c.mu.Lock(); c.assumptions = append(c.assumptions, s); c.mu.Unlock() }
+func (c *Ctx) Assume(s string)      { c.mu.Lock(); c.assumptions = append(c.assumptions, s); c.mu.Unlock() }
 
 // Eval counts n evaluated cases.
 func (c *Ctx) Eval(n int) { c.mu.Lock(); c.evals += int64(n); c.mu.Unlock() }
